@@ -845,21 +845,125 @@ def _k_resampling():
              '_get_resampling (fuse and compare): down-sampling method iff prod|from_res| <= prod|to_res|')]
 
 
+def _a_convert():
+    """raster_array.py _convert_array_dtype: the order of the steps and the conditions under which each is skipped"""
+    from homonim.raster_array import RasterArray
+    fn = fn_body(src_of(RasterArray._convert_array_dtype))
+    body = [st for st in fn.body if not (isinstance(st, ast.Expr) and isinstance(st.value, ast.Constant))]
+    texts = [U(st) for st in body]
+    want = [
+        "if nodata is not None and (not rio.dtypes.can_cast_dtype(nodata, dtype)):\n    raise ValueError(f\"'nodata' value: {nodata} cannot be safely cast to '{dtype}'\")",
+        "unsafe_cast = not np.can_cast(self.dtype, dtype, casting='safe')",
+        'nodata_change = nodata is not None and (not utils.nan_equals(nodata, self.nodata))',
+        'array = self._array',
+        'if nodata_change or unsafe_cast:\n    array = array.astype(np.promote_types(self.dtype, dtype), copy=True)',
+        'if unsafe_cast and np.issubdtype(self.dtype, np.floating) and np.issubdtype(dtype, np.integer):\n    np.round(array, out=array)',
+    ]
+    for k, w in enumerate(want):
+        if texts[k] != w:
+            raise TranslationError(f'_convert_array_dtype: statement {k} reads `{texts[k][:120]}`')
+    clip = body[6]
+    if not (isinstance(clip, ast.If) and U(clip.test) == 'unsafe_cast and np.issubdtype(dtype, np.integer)' and len(clip.body) == 3):
+        raise TranslationError('_convert_array_dtype: clip block')
+    if U(clip.body[0]) != 'src_info = np.iinfo(self.dtype) if np.issubdtype(self.dtype, np.integer) else np.finfo(self.dtype)' or \
+            U(clip.body[1]) != 'dst_info = np.iinfo(dtype)':
+        raise TranslationError('_convert_array_dtype: type ranges')
+    inner = clip.body[2]
+    if not (isinstance(inner, ast.If) and [U(x) for x in inner.body] == ['np.clip(array, dst_info.min, dst_info.max, out=array)'] and not inner.orelse):
+        raise TranslationError('_convert_array_dtype: clip call')
+    cond = bool_expr_cmp(inner.test, {'src_info.min': 'smin', 'src_info.max': 'smax', 'dst_info.min': 'dmin', 'dst_info.max': 'dmax'})
+    rest = texts[7:]
+    if rest != ["with np.errstate(invalid='ignore', over='ignore'):\n    array = array.astype(dtype, copy=False, casting='unsafe')",
+                'if nodata_change or (nodata is not None and unsafe_cast):\n    array[~self.mask] = nodata', 'return array']:
+        raise TranslationError(f'_convert_array_dtype: final steps {rest}')
+    return [('convert_clipNeeded', '(smin smax dmin dmax : Int)', 'Bool', cond, '_convert_array_dtype: ' + U(inner.test))]
+
+
+def bool_expr_cmp(node, atoms):
+    """boolean combination of integer comparisons over named atoms"""
+    if isinstance(node, ast.BoolOp):
+        op = ' || ' if isinstance(node.op, ast.Or) else ' && '
+        return '(' + op.join(bool_expr_cmp(v, atoms) for v in node.values) + ')'
+    if isinstance(node, ast.Compare) and len(node.ops) == 1 and U(node.left) in atoms and U(node.comparators[0]) in atoms:
+        a, b = atoms[U(node.left)], atoms[U(node.comparators[0])]
+        if isinstance(node.ops[0], ast.Lt):
+            return f'(decide ({a} < {b}))'
+        if isinstance(node.ops[0], ast.Gt):
+            return f'(decide ({b} < {a}))'
+    raise TranslationError(f'cannot translate the condition `{U(node)}`')
+
+
+def _a_write():
+    """raster_array.py to_rio_dataset: crop the window, return if empty, slice the block, check, convert, write data, write the
+    mask OF THE CROPPED BLOCK when the dataset has no nodata value and band 1 is among the bands written"""
+    from homonim.raster_array import RasterArray
+    fn = fn_body(src_of(RasterArray.to_rio_dataset))
+    texts = [U(st) for st in fn.body if not (isinstance(st, ast.Expr) and isinstance(st.value, ast.Constant))]
+    tail = texts[texts.index('if window is None:\n    window = rio_dataset.window(*self.bounds)'):]
+    want = ['if window is None:\n    window = rio_dataset.window(*self.bounds)',
+            'window, _ = self.bounded_window_slices(rio_dataset, window)',
+            'if window.width <= 0 or window.height <= 0:\n    return',
+            'bounded_ra = self.slice_to_bounds(*rio_dataset.window_bounds(window))']
+    for k, w in enumerate(want):
+        if tail[k] != w:
+            raise TranslationError(f'to_rio_dataset: statement reads `{tail[k][:120]}`, expected `{w}`')
+    if not tail[4].startswith('if np.any(bounded_ra.shape != np.array((window.height, window.width))):\n    raise ValueError('):
+        raise TranslationError('to_rio_dataset: shape check')
+    rest = tail[5:]
+    if rest != ['array = bounded_ra._convert_array_dtype(rio_dataset.dtypes[0], nodata=rio_dataset.nodata)',
+                'rio_dataset.write(array, window=window, indexes=indexes, **kwargs)',
+                'if rio_dataset.nodata is None and 1 in np.array(indexes):\n    rio_dataset.write_mask(bounded_ra.mask, window=window)']:
+        raise TranslationError(f'to_rio_dataset: conversion / write steps {rest}')
+    return [('writeSteps', '', 'List WriteStep',
+             '[.cropToDataset, .emptyIsNoop, .sliceBlockToWindow, .shapeMustMatch, .convertDtype, .writeData, .writeCroppedMaskIfNoNodataBand1]',
+             'to_rio_dataset: the steps after the argument checks, in order')]
+
+
+def _a_read():
+    """raster_array.py from_rio_dataset: masked datasets and datasets without nodata get the internal nodata value; the array is
+    pre-filled with nodata; pixels hidden by the dataset mask are overwritten with nodata"""
+    from homonim.raster_array import RasterArray
+    fn = fn_body(src_of(RasterArray.from_rio_dataset))
+    checks = {
+        'is_masked': 'any([MaskFlags.per_dataset in rio_dataset.mask_flag_enums[bi - 1] for bi in index_list])',
+        'nodata': 'cls.default_nodata if is_masked or rio_dataset.nodata is None else rio_dataset.nodata',
+        '(bounded_window, bounded_slices)': 'cls.bounded_window_slices(rio_dataset, window)',
+        'bounded_mask': "rio_dataset.dataset_mask(window=bounded_window).astype('bool', copy=False)",
+    }
+    for t, v in checks.items():
+        if U(the_assign(fn, t)) != v:
+            raise TranslationError(f'from_rio_dataset: `{t}` = `{U(the_assign(fn, t))}`')
+    fills = [U(v) for t, v, _ in assigns(fn) if t == 'array']
+    if fills != ['np.full((len(index_list), window.height, window.width), fill_value=nodata, dtype=cls.default_dtype)',
+                 'np.full((window.height, window.width), fill_value=nodata, dtype=cls.default_dtype)']:
+        raise TranslationError(f'from_rio_dataset: nodata pre-fill {fills}')
+    masked = [U(v) for t, v, _ in assigns(fn) if t in ('bounded_array[~bounded_mask]', 'bounded_array[:, ~bounded_mask]')]
+    if masked != ['nodata', 'nodata']:
+        raise TranslationError('from_rio_dataset: masked pixels')
+    ret = [U(n.value) for n in ast.walk(fn) if isinstance(n, ast.Return)]
+    if ret != ['cls(array, rio_dataset.crs, rio_dataset.transform, nodata=nodata, window=window)']:
+        raise TranslationError(f'from_rio_dataset returns {ret}')
+    return [('read_usesInternalNodata', '(isMasked hasNodata : Bool)', 'Bool', '(isMasked || !hasNodata)',
+             'from_rio_dataset: nodata = default_nodata if is_masked or rio_dataset.nodata is None else rio_dataset.nodata')]
+
+
 # one extractor per source function: a failure in one leaves the others (and the properties they serve) alone
 SECTIONS = [_k_fit_gain, _k_fit_gain_offset, _k_r2, _k_blk, _s_cmp, _s_cmp_mean, _s_stats, _g_blocks, _g_resolve, _g_auto,
-            _g_overlap, _g_expand, _g_round, _g_covers, _g_pindex, _s_cmp_block, _m_cover, _a_bounded, _p_r2band, _f_prog, _f_outfiles, _c_invoke, _f_process, _k_resampling]
+            _g_overlap, _g_expand, _g_round, _g_covers, _g_pindex, _s_cmp_block, _m_cover, _a_bounded, _p_r2band, _f_prog, _f_outfiles, _c_invoke, _f_process, _k_resampling, _a_convert, _a_write, _a_read]
 # definition-name prefixes each extractor is responsible for (used to attribute a failed extraction to properties)
 PROVIDES = {'_k_fit_gain': ('fitGain_',), '_k_fit_gain_offset': ('fitGainOffset_',), '_k_r2': ('r2_',),
             '_k_blk': ('blk_', 'blockNorm_', 'applyParams'), '_s_cmp': ('cmp_',), '_s_cmp_mean': ('cmp_meanRow',),
             '_s_stats': ('stats_',), '_g_blocks': ('blocks_',), '_g_resolve': ('resolveAutoIsRef',), '_g_auto': ('autoBlock_',),
             '_g_overlap': ('overlapForKernel',), '_g_expand': ('expandWindow_',), '_g_round': ('roundBounds_',),
             '_g_covers': ('covers_axis',), '_g_pindex': ('paramIndex',), '_s_cmp_block': ('cmpPx_',), '_m_cover': ('cover_',),
-            '_a_bounded': ('bounded_',), '_p_r2band': ('stats_isR2Band', 'stats_inpainted'), '_f_prog': ('prog',), '_f_outfiles': ('outFilesEvents',), '_c_invoke': ('cli_',), '_f_process': ('fanOut',), '_k_resampling': ('resamplingIsDown',)}
+            '_a_bounded': ('bounded_',), '_p_r2band': ('stats_isR2Band', 'stats_inpainted'), '_f_prog': ('prog',), '_f_outfiles': ('outFilesEvents',), '_c_invoke': ('cli_',), '_f_process': ('fanOut',), '_k_resampling': ('resamplingIsDown',), '_a_convert': ('convert_',), '_a_write': ('writeSteps',),
+            '_a_read': ('read_',)}
 # which generated definitions (by name prefix) bear on which property's check
 SERVES = {
     'C01': ('fitGain', 'r2_', 'blk_', 'blockNorm_'), 'C02': ('fitGain', 'r2_', 'blk_', 'blockNorm_', 'applyParams', 'resamplingIsDown'),
     'C07': ('fitGain', 'r2_', 'blk_', 'blockNorm_', 'applyParams'), 'C14': ('applyParams', 'paramIndex'),
-    'C04': ('prog', 'fanOut'), 'C09': ('prog', 'outFilesEvents', 'fanOut'), 'C10': ('outFilesEvents',), 'C11': ('cmp_', 'cmpPx_', 'resamplingIsDown'), 'C12': ('stats_',), 'C17': ('cover_',), 'C20': ('bounded_',), 'C05': ('overlapForKernel', 'blocks_', 'resamplingIsDown'),
+    'C04': ('prog', 'fanOut'), 'C09': ('prog', 'outFilesEvents', 'fanOut'), 'C10': ('outFilesEvents',), 'C11': ('cmp_', 'cmpPx_', 'resamplingIsDown'), 'C12': ('stats_',), 'C17': ('cover_',), 'C20': ('bounded_', 'writeSteps', 'read_', 'convert_'), 'C13': ('convert_', 'writeSteps'), 'C08': ('read_',),
+    'C03': ('writeSteps',), 'C05': ('overlapForKernel', 'blocks_', 'resamplingIsDown'),
     'C06': ('blocks_', 'expandWindow_', 'roundBounds_', 'autoBlock_'), 'C16': ('covers_axis',), 'C18': ('resolveAutoIsRef',), 'C19': ('cli_',),
 }
 # theorems outside Props/Cxx.lean audited with a property's proof leg: (module, theorem name prefix) - the source-text tie
@@ -874,6 +978,7 @@ TIE = {
     'C11': [('SrcTieStats', 'src_C11_'), ('E2ECompare', 'compare_'), ('SrcTieKernel', 'src_C02_resampling')], 'C12': [('SrcTieStats', 'src_C12_')], 'C05': [('SrcTieGeom', 'src_C05_'), ('SrcTieGeom', 'src_C06_block'), ('E2E', 'block_transparent'), ('E2E', 'partitions_agree'),
             ('E2ESrc', 'block_transparent_src_grid'), ('E2ESrc', 'partitions_agree_src_grid'), ('E2ESrc', 'correctedSrcGrid_eq_on')],
     'C06': [('SrcTieGeom', 'src_C06_')], 'C16': [('SrcTieGeom', 'src_C16_')], 'C18': [('SrcTieGeom', 'src_C18_')],
+    'C13': [('SrcTieGeom', 'src_C13_')], 'C08': [('SrcTieGeom', 'src_C08_')],
     'C17': [('SrcTieGeom', 'src_C17_'), ('E2EPartial', 'partial_mask_'), ('E2EPartialDef', 'partial_valid_'),
             ('E2EPartialSrc', 'partial')], 'C20': [('SrcTieGeom', 'src_C20_')],
     'C04': [('SrcTieSched', 'src_C04_')], 'C09': [('SrcTieSched', 'src_C04_')], 'C10': [('SrcTieSched', 'src_C10_')], 'C19': [('SrcTieSched', 'src_C19_')],
@@ -884,7 +989,7 @@ def generate():
     """(text of GeneratedCode.lean, {extractor name: error text} for the source functions that could not be translated)"""
     lines = ['/-', '  GENERATED by harness/py2lean.py from the source text of the homonim package - do not edit.',
              '  Each definition is the closed form of what the named statement of the code evaluates (see py2lean.py).', '-/',
-             'import Homonim.Model.Sched', 'import Homonim.Model.FS', 'namespace Homonim.Src', 'open Homonim', '']
+             'import Homonim.Model.Sched', 'import Homonim.Model.FS', 'import Homonim.Model.WindowIO', 'namespace Homonim.Src', 'open Homonim', '']
     errors = {}
     for fn in SECTIONS:
         try:
